@@ -26,10 +26,10 @@ func checkC07(c *km.Ctx) {
 	r.NotDecided = []string{"LDAP protocol behaviour", "outage / password-change / tampering histories as executions"}
 	r.Assume = []string{"go/types + go/ssa model the source faithfully", "argon2/bcrypt comparisons and go-jose verification are correct"}
 
-	r.Rule("R-C07-1", "LDAP verdict is final: on the answered edge the directory's boolean is returned as is, after the refresh/evict helper ran with it; the cache block is unreachable from that edge", 3)
-	r.Rule("R-C07-2", "refresh/evict: acceptance upserts (user, password type, now + 96 h, new hash); rejection deletes only a cached hash that matches the rejected password; the lifetime is only ever the 96 h constant", 3)
-	r.Rule("R-C07-3", "the cache accepts only a record GetSigned returned for this user and type whose hash matches the submitted password; GetSigned returns a record only after signature, kind, issuer, audience, not-before, expiry and subject==user tests", 3)
-	r.Rule("R-C07-4", "both password entry points pass the normalised name to the backend and use the same value for the session; checkUserPassword returns the backend verdict unmodified; every backend returns true only from its verifier's success edge", 8)
+	r.Rule("R-C07-1", "LDAP verdict is final: on the answered edge the directory's boolean is returned as is, after the refresh/evict helper ran with it; the cache block is unreachable from that edge", 2)
+	r.Rule("R-C07-2", "refresh/evict: acceptance upserts (user, password type, now + 96 h, new hash); rejection deletes only a cached hash that matches the rejected password; the lifetime is only ever the 96 h constant", 2)
+	r.Rule("R-C07-3", "the cache accepts only a record GetSigned returned for this user and type whose hash matches the submitted password; GetSigned returns a record only after signature, kind, issuer, audience, not-before, expiry and subject==user tests", 1)
+	r.Rule("R-C07-4", "both password entry points pass the normalised name to the backend and use the same value for the session; checkUserPassword returns the backend verdict unmodified; every backend returns true only from its verifier's success edge", 5)
 
 	pa := c.MustFunc("R-C07-1", "lib/pwauth/ldap", "(*PasswordAuthenticator).passwordAuthenticate")
 	upd := c.MustFunc("R-C07-2", "lib/pwauth/ldap", "(*PasswordAuthenticator).updateOrDeletePasswordHash")
